@@ -464,9 +464,12 @@ fn run_scenario(sc: &Value, cfg: &Cfg) -> Value {
     for (i, e) in events.iter().enumerate() {
         at_event = i;
         let at = format!("before event {} ({})", i + 1, e["ev"].as_str().unwrap_or(""));
-        if let Err(s) = x.sync_and_check(&e["pre"], &at) {
-            stop = Some(s);
-            break;
+        // a `fast` event follows the previous one immediately: the hub is NOT given the time to go idle
+        if !e["fast"].as_bool().unwrap_or(false) {
+            if let Err(s) = x.sync_and_check(&e["pre"], &at) {
+                stop = Some(s);
+                break;
+            }
         }
         let next_obs = if i + 1 < events.len() { &events[i + 1]["pre"] } else { &sc["final"] };
         if let Err(s) = x.run_event(e, next_obs) {
